@@ -35,11 +35,10 @@ void QXmppRpcManager::invokeInterfaceMethod(const QXmppRpcInvokeIq &iq)
 {
     QXmppStanza::Error error;
 
+    // A method name that is not of the form "Interface.method" names no interface. The request
+    // must still be answered (RFC 6120, 8.2.3): it gets the item-not-found error below.
     const QStringList methodBits = iq.method().split(u'.');
-    if (methodBits.size() != 2) {
-        return;
-    }
-    const QString interface = methodBits.first();
+    const QString interface = methodBits.size() == 2 ? methodBits.first() : QString();
     const QString method = methodBits.last();
     QXmppInvokable *iface = m_interfaces.value(interface);
     if (iface) {
